@@ -9,7 +9,7 @@ import z3
 from pyvc.vals import Val, NONE, I, B, R, Z, ref, fresh, cls_of, Cls, PENDING
 from pyvc.verify import Unit, sym_inst, sym_val, user_calls
 from pyvc.symexec import Raise, LoopSpec
-from .base import make_cfg, FIELD_TYPES, INST, OPT, RecordCall
+from .base import make_cfg, FIELD_TYPES, INST, OPT, RecordCall, local, decided
 from .c_throttle import global_handler, TrackFuture
 
 FIELD_TYPES.update({
@@ -43,8 +43,10 @@ def _cfg():
     cfg.global_types[("more_executors._impl.event", "GLOBAL_HANDLER")] = global_handler
     cfg.contracts["more_executors._impl.metrics.track_future"] = TrackFuture()
     for fn in ("_partition_jobs", "_job_loop_iter"):
-        for nm in ("pending", "overdue"):
-            cfg.local_types[("more_executors._impl.timeout.TimeoutExecutor." + fn, nm)] = ("list", INST("Job"))
+        for k_, nm in enumerate(("pending", "overdue")):
+            # _partition_jobs: the two lists it builds ([] in source order); _job_loop_iter: the names the pair is unpacked into
+            key = ("$list#%d|%s" % (k_, nm)) if fn == "_partition_jobs" else nm
+            cfg.local_types[("more_executors._impl.timeout.TimeoutExecutor." + fn, key)] = ("list", INST("Job"))
     return cfg
 
 
@@ -52,11 +54,11 @@ def _cfg():
 def _partition_spec():
     def inv(engine, st, fr, ctx):
         env = st.envs[fr.eid]
-        now = engine.num(st, env["now"])
+        now = engine.num(st, local(engine, st, fr, "$call:monotonic", "now"))
         k = z3.Int("k!part")
         out = []
         for nm, rel in (("overdue", lambda d: d < now), ("pending", lambda d: d >= now)):
-            lst = env[nm]
+            lst = local(engine, st, fr, "$list#1" if nm == "overdue" else "$list#0", nm)
             lid = Val.id(lst.t)
             at = st.get("$at", lid)
             out.append(("every job in `%s` has its deadline %s the clock value read" % (nm, "strictly before" if nm == "overdue" else "at or after"),
@@ -65,14 +67,14 @@ def _partition_spec():
 
     def body_post(engine, st, fr, ctx, events):
         env = st.envs[fr.eid]
-        now = engine.num(st, env["now"])
+        now = engine.num(st, local(engine, st, fr, "$call:monotonic", "now"))
         job = engine.to_val(st, ctx["x"])
         apps = [e for e in events if e.kind == "mutate" and e.meth == "append"]
-        od, pd = Val.id(env["overdue"].t), Val.id(env["pending"].t)
+        od, pd = Val.id(local(engine, st, fr, "$list#1", "overdue").t), Val.id(local(engine, st, fr, "$list#0", "pending").t)
         dl = deadline(st, job)
-        was_done = any(a == "job.future.done()" and b for a, b in st.decisions[-3:])
+        was_done = decided(engine, st, "timeout.TimeoutExecutor._partition_jobs", "{$for#0|job}.future.done()", True, st.decisions[-3:])
         mine = st.decisions[len(ctx["head"].decisions):] if ctx.get("head") is not None else st.decisions[-3:]
-        seen_not_done = any(a == "job.future.done()" and not b for a, b in mine)
+        seen_not_done = decided(engine, st, "timeout.TimeoutExecutor._partition_jobs", "{$for#0|job}.future.done()", False, mine)
         out = [("each job goes to at most one of the two lists", z3.BoolVal(len(apps) <= 1))]
         if apps:
             e = apps[0]
@@ -175,7 +177,7 @@ def _post_iter(engine, st, ctx, out):
     clock = st.ghost.get("clock")
     if wt is None:
         cl.append(("no timeout on the wait only when no job is pending", "WK",
-                   z3.BoolVal(any(a == "pending" and not b for a, b in st.decisions)), ["C09", "C03"]))
+                   z3.BoolVal(decided(engine, st, "timeout.TimeoutExecutor._job_loop_iter", "{$unpack:_partition_jobs#0|pending}", False)), ["C09", "C03"]))
     else:
         w = engine.num(st, wt)
         w = z3.ToReal(w) if w.sort() == I else w
@@ -286,7 +288,7 @@ def _post_do_cancel(engine, st, ctx, out):
     incs = [e for e in st.trace if e.kind == "metric" and e.callee == "TIMEOUT"]
     cl = [("exactly one cancel() attempt on the job's own future, no exception", "PC",
            z3.And(z3.BoolVal(not isinstance(out, Raise) and len(calls) == 1), calls[0].args[0] == ctx["fut"] if calls else False), ["C09", "C18"])]
-    truthy = any(a == "cancel_result" and b for a, b in st.decisions)
+    truthy = decided(engine, st, "timeout.TimeoutExecutor._do_cancel", "{$call:cancel|cancel_result}", True)
     cl.append(("TIMEOUT counter counts exactly the cancel attempts that succeeded", "PC", z3.BoolVal(len(incs) == (1 if truthy else 0)), ["C20"]))
     from .base import label_key
     cl.append(("... by going UP by one, on this executor's own child", "PC",
